@@ -140,6 +140,42 @@ impl Sandbox {
     }
 }
 
+/// DIFF legs of the properties that say "on both backends": a workload made of the property's own
+/// operations (plus what is needed to build states) and the list of operations whose agreement is
+/// that property's business
+pub fn leg(id: &str) -> Option<(Vec<(&'static str, u32)>, Vec<&'static str>)> {
+    let build: &[(&'static str, u32)] = &[("mkdir_p", 6), ("mkfile", 4), ("write_all", 5), ("symlink", 4)];
+    match id {
+        "C06" => Some((
+            cat(&[build, &[("write_all", 8), ("append_all", 10), ("append_line", 4), ("append_lines", 4), ("write_lines", 4), ("read_all", 10), ("read_lines", 5), ("copy", 4), ("move_p", 4), ("remove", 2)]]),
+            vec!["write_all", "append_all", "append_line", "append_lines", "write_lines", "read_all", "read_lines"],
+        )),
+        "C08" => Some((
+            cat(&[build, &[("entries", 25), ("paths", 4), ("dirs", 4), ("files", 4), ("all_paths", 4), ("all_dirs", 4), ("all_files", 4), ("remove", 2), ("move_p", 2)]]),
+            vec!["entries", "paths", "dirs", "files", "all_paths", "all_dirs", "all_files"],
+        )),
+        "C09" => Some((cat(&[build, &[("mkdir_m", 3), ("mkfile_m", 2), ("chmod", 2), ("copy", 12), ("copy_b", 12), ("move_p", 14), ("read_all", 3)]]), vec!["copy", "copy_b", "move_p"])),
+        "C10" => Some((
+            cat(&[build, &[("symlink", 12), ("readlink", 8), ("readlink_abs", 8), ("is_symlink", 4), ("is_file", 4), ("is_dir", 4), ("is_symlink_dir", 4), ("is_symlink_file", 4), ("entry", 5), ("remove", 5), ("chmod", 3)]]),
+            vec!["symlink", "readlink", "readlink_abs", "is_symlink", "is_file", "is_dir", "is_symlink_dir", "is_symlink_file", "entry", "remove", "chmod"],
+        )),
+        "C11" => Some((
+            cat(&[build, &[("mkdir_m", 4), ("mkfile_m", 4), ("chmod", 10), ("chmod_b", 22), ("mode", 6), ("is_exec", 4), ("is_readonly", 4)]]),
+            vec!["chmod", "chmod_b", "mode", "is_exec", "is_readonly", "mkdir_m", "mkfile_m"],
+        )),
+        _ => None,
+    }
+}
+
+fn profile_for(id: &str) -> Profile {
+    let mut p = profile();
+    if let Some((w, _)) = leg(id) {
+        p.weights = w;
+        p.name = "backend-differential-leg";
+    }
+    p
+}
+
 fn profile() -> Profile {
     Profile {
         name: "backend-differential",
@@ -219,6 +255,15 @@ fn in_domain(m: &Model) -> bool {
         // ... and records the kind its target has now: a disk has no "kind at creation", so a
         // state in which Memfs remembers a different kind has no counterpart on disk
         (Kind::Link, Some(t)) => matches!(m.k(t), K::Dir | K::File) && n.link_dir == (m.k(t) == K::Dir),
+        _ => true,
+    }) && m.t.nodes.iter().all(|(k, n)| match (&n.kind, &n.target, &n.rel) {
+        // ... and its stored relative text still leads from where the link is now to that target:
+        // a moved link keeps its text on disk but its absolute target in Memfs
+        (Kind::Link, Some(t), Some(r)) => {
+            let dir = tree::parent(k).unwrap_or_else(|| "/".into());
+            let via = if r.starts_with('/') { crate::refpath::clean(r) } else { crate::refpath::clean(&format!("{}/{}", dir, r)) };
+            via == *t
+        },
         _ => true,
     })
 }
@@ -391,7 +436,10 @@ fn comparable(op: &Op) -> bool {
     !matches!(op, Op::Uid { .. } | Op::Gid { .. } | Op::Owner { .. } | Op::Chown { .. } | Op::ChownB { .. })
 }
 
-pub fn run_diff(sb: &Sandbox, knobs: &Knobs, venv: &Env, pre: &Tree, mut src: Src, stats: &mut Stats, known: &dyn Fn(&Violation) -> bool) -> DiffOut {
+pub fn run_diff(
+    prop: &str, sb: &Sandbox, knobs: &Knobs, venv: &Env, pre: &Tree, mut src: Src, stats: &mut Stats, known: &dyn Fn(&Violation) -> bool,
+) -> DiffOut {
+    let relevant: Option<Vec<&'static str>> = leg(prop).map(|l| l.1);
     let mut out = DiffOut { ops: vec![], violations: vec![], log_hash: 0, harness_skip: None };
     if let Err(e) = sb.fresh() {
         out.harness_skip = Some(format!("sandbox: {}", e));
@@ -487,7 +535,7 @@ pub fn run_diff(sb: &Sandbox, knobs: &Knobs, venv: &Env, pre: &Tree, mut src: Sr
         let (mn, sn) = (normalise(&mo), normalise(&so));
         if mo.class3() != so.class3() {
             v = Some(Violation {
-                property: "C02".into(),
+                property: prop.into(),
                 oracle: "backend-outcome".into(),
                 step,
                 sig: format!("diff-outcome|{}|{}|memfs={} stdfs={}", vop.label(), class, mo.class3(), so.class3()),
@@ -495,7 +543,7 @@ pub fn run_diff(sb: &Sandbox, knobs: &Knobs, venv: &Env, pre: &Tree, mut src: Sr
             });
         } else if mn != sn && !(matches!(vop, Op::IsExec { .. } | Op::IsReadonly { .. }) && class.starts_with("link-")) {
             v = Some(Violation {
-                property: "C02".into(),
+                property: prop.into(),
                 oracle: "backend-value".into(),
                 step,
                 sig: format!("diff-value|{}|{}", vop.label(), class),
@@ -531,7 +579,7 @@ pub fn run_diff(sb: &Sandbox, knobs: &Knobs, venv: &Env, pre: &Tree, mut src: Sr
                 kinds.sort();
                 kinds.dedup();
                 v = Some(Violation {
-                    property: "C02".into(),
+                    property: prop.into(),
                     oracle: "backend-state".into(),
                     step,
                     sig: format!("diff-state|{}|{}|{}|{}", vop.label(), class, mo.class3(), kinds.join("+")),
@@ -555,6 +603,14 @@ pub fn run_diff(sb: &Sandbox, knobs: &Knobs, venv: &Env, pre: &Tree, mut src: Sr
         m.t.cwd = sb.virt(&mem.cwd().map(|c| exec::ps(&c)).unwrap_or_default()).unwrap_or_else(|| "/".into());
         m.after(&vop, &mo, &pre_t);
         let _ = (Expect::Any, Next::Same);
+        if let (Some(_), Some(rel)) = (&v, &relevant) {
+            if !rel.contains(&vop.name()) {
+                // a divergence on an operation that belongs to another property: not reported by
+                // this leg, but nothing after it can be attributed either
+                stats.bump("leg_runs_ended_by_foreign_divergence");
+                break;
+            }
+        }
         if let Some(v) = v {
             if known(&v) {
                 *stats.known_hits.entry(v.sig.clone()).or_insert(0) += 1;
@@ -637,7 +693,7 @@ pub fn drop_privileges_once() {
 fn replay_case(c: &DiffCase, stats: &mut Stats) -> DiffOut {
     drop_privileges_once();
     SANDBOX.with(|sb| {
-        let o = run_diff(sb, &c.knobs, &c.env, &c.tree, Src::Replay(&c.ops), stats, &|_| false);
+        let o = run_diff(&c.property, sb, &c.knobs, &c.env, &c.tree, Src::Replay(&c.ops), stats, &|_| false);
         sb.cleanup();
         o
     })
@@ -699,13 +755,13 @@ pub fn run_index(id: &str, tier: &str, seed: u64, idx: u64, stats: &mut Stats, k
     let rs = mix(&[seed, hash_str(id), hash_str(tier), idx]);
     let mut rng = Rng::new(rs);
     let knobs = pick_knobs(&mut rng);
-    let mut gen = Gen::new(profile(), format!("{}", idx), &mut rng);
+    let mut gen = Gen::new(profile_for(id), format!("{}", idx), &mut rng);
     let venv = venv_of(&gen.names, &mut rng);
     let pre = random_tree(&mut gen, &venv, &mut rng);
     // (state, call) pairs dominate; the rest are short multi-step histories
     let len = if rng.chance(3, 5) { 1 } else { rng.range(2, 10) };
     let out = SANDBOX.with(|sb| {
-        let o = run_diff(sb, &knobs, &venv, &pre, Src::Gen { gen: &mut gen, rng: &mut rng, len }, stats, known);
+        let o = run_diff(id, sb, &knobs, &venv, &pre, Src::Gen { gen: &mut gen, rng: &mut rng, len }, stats, known);
         sb.cleanup();
         o
     });
